@@ -166,7 +166,7 @@ fn c02_receiver(ctx: &mut Ctx, pshape: (usize, usize), win: Win, rk: u8, om: usi
     let small = ctx.scale == Scale::Miri;
     let cs = coord_values(wc, pc, len_in, false, small);
     let rs = coord_values(wr, pc, len_in, true, small);
-    let kinds = ["TooDee", "TooDeeView", "TooDeeViewMut", "TooDeeView::new", "TooDeeViewMut::new", "TooDeeViewMut::view", "TooDeeView::view", "TooDeeViewMut::view_mut"];
+    let kinds = ["TooDee", "TooDeeView", "TooDeeViewMut", "TooDeeView::new", "TooDeeViewMut::new", "TooDeeViewMut::view", "TooDeeView::view", "TooDeeViewMut::view_mut", "TooDeeView::from(view_mut)"];
     let (outer, inner) = crate::recv::outer_of_mode(win, pc, pr, om);
     let kind = kinds[rk as usize];
     for &c in &cs {
@@ -201,6 +201,10 @@ fn c02_receiver(ctx: &mut Ctx, pshape: (usize, usize), win: Win, rk: u8, om: usi
                 6 => {
                     let o = parent.view(outer.0, outer.1);
                     let v = o.view(inner.0, inner.1);
+                    c02_shared(ctx, kind, &v, &pos, c, r);
+                }
+                8 => {
+                    let v: TooDeeView<'_, u32> = parent.view_mut(win.0, win.1).into();
                     c02_shared(ctx, kind, &v, &pos, c, r);
                 }
                 7 => {
@@ -245,13 +249,13 @@ pub fn run_c02(ctx: &mut Ctx) {
     }
     for shape in shapes(n_par) {
         for win in windows(shape.0, shape.1) {
-            for rk in [1u8, 2, 5, 6, 7] {
+            for rk in [1u8, 2, 5, 6, 7, 8] {
                 // nested receivers: non-empty windows only (their outer window is the window grown by one cell)
-                if rk >= 5 && ((win.1).0 == (win.0).0 || (win.1).1 == (win.0).1) {
+                if (5..=7).contains(&rk) && ((win.1).0 == (win.0).0 || (win.1).1 == (win.0).1) {
                     continue;
                 }
-                for om in 0..(if rk >= 5 { 3 } else { 1 }) {
-                    if ctx.case(|| format!("C02 {} parent={}x{} win={:?} outer-mode={}", ["", "TooDeeView", "TooDeeViewMut", "", "", "TooDeeViewMut::view", "TooDeeView::view", "TooDeeViewMut::view_mut"][rk as usize], shape.0, shape.1, win, om)) {
+                for om in 0..(if (5..=7).contains(&rk) { 3 } else { 1 }) {
+                    if ctx.case(|| format!("C02 {} parent={}x{} win={:?} outer-mode={}", ["", "TooDeeView", "TooDeeViewMut", "", "", "TooDeeViewMut::view", "TooDeeView::view", "TooDeeViewMut::view_mut", "TooDeeView::from(view_mut)"][rk as usize], shape.0, shape.1, win, om)) {
                         c02_receiver(ctx, shape, win, rk, om);
                     }
                     if ctx.done() {
